@@ -109,6 +109,9 @@ def case(ctx, i, rec):
         rec.maxi(f"dev:{method}:{rel}", max(dev_t, dev_m))
         done += 1
         if max(dev_t, dev_m) > 1e-9:
+            if space == "linear" and pairs.linear_underflow(a, b):
+                rec.count("pairs_in_linear_underflow_domain")
+                continue
             if method == "maximization" and tie_excused(rec, ts, a, b.node_mn[newid], mu, eps, space):
                 rec.count("tie_skipped")
                 continue
